@@ -1,5 +1,5 @@
 import Refinery.Model.SentCache
-import Refinery.Lemmas.SentCacheLRU
+import Refinery.Lemmas.SentCacheInv
 import Refinery.Gen.Sentcache
 /-!
 # C31 — the decision cache remembers what it promises
@@ -18,199 +18,25 @@ resizes and clock advances.
 -/
 namespace Refinery.Props.C31
 open Refinery Refinery.Model.SentCache Refinery.Lemmas.SentCache
-open Refinery.Model (TTL.St)
 
-/-! ## Frame lemmas: what `drain` and `Maintain` touch -/
+/-!
+Vocabulary (defined in `Refinery/Lemmas/SentCacheInv.lean`):
+`keptIds s` ids of the kept list, most recently used first · `transcript`/`touches`/`dedup` the
+observable run, its touch sequence (kept records and consults answered "kept", most recent first)
+and first-occurrence de-duplication · `kevs`/`specK` the recency specification with resizes ·
+`lastKept ops id` rate and reason of the latest kept record · `HashInj` no reason-hash collision ·
+`losesCur id op` a failed insert of `op` kicks `id` out · `rotates cfg s op` / `NoRotation` ·
+`advTotal ops` total clock advance.
 
-theorem drainCore_eq {cfg : Cfg} {s s' : St} {a : Adv} (h : drainCore cfg s a = some s') :
-    s' = { s with queue := s.queue.drop a.k,
-                  cur := s.cur.insertAll (s.queue.take a.k) a.failC a.lostC,
-                  fut := s.fut.map (fun f => f.insertAll (s.queue.take a.k) a.failF a.lostF) } := by
-  unfold drainCore at h
-  split at h
-  · simp only at h
-    split at h
-    · split at h
-      · rename_i hf
-        split at h
-        · simp only [Option.some.injEq] at h; rw [← h, hf]; rfl
-        · simp at h
-      · rename_i f hf
-        split at h
-        · simp only [Option.some.injEq] at h; rw [← h, hf]; rfl
-        · simp at h
-    · simp at h
-  · simp at h
+Proved there and not restated here: `kept_within_capacity`, `resize_keeps_newest_run`,
+`resize_zero_refused` (size 0 is refused, nothing changes), `reasonGet_stable` (an interned index
+keeps its meaning), `kinv_run` (table and entry invariant in every reachable state),
+`kept_answered_span` (the `CheckSpan` form, counters after counting the span), `record_enqueues`,
+`overflow_loses_record`, `rotates_observable`, `no_nil_current` (with futPm ≤ rotPm `current` is never
+nil), `wfr_run`.
+-/
 
-theorem maintainCore_frame {cfg : Cfg} {s s' : St} {rot : Bool} (h : maintainCore cfg s = some (s', rot)) :
-    s'.kept = s.kept ∧ s'.keptCap = s.keptCap ∧ s'.recent = s.recent ∧ s'.reasons = s.reasons ∧
-    s'.queue = s.queue ∧ s'.nextCap = s.nextCap ∧ (rot = false → s'.cur = s.cur) ∧
-    (rot = true → over cfg.rotPm s.cur.count s.cur.slots = true) := by
-  unfold maintainCore at h
-  simp only at h
-  split at h
-  · rename_i hov
-    split at h
-    · simp only [Option.some.injEq, Prod.mk.injEq] at h
-      obtain ⟨h1, h2⟩ := h
-      subst h1; subst h2
-      simp [hov]
-    · simp at h
-  · simp only [Option.some.injEq, Prod.mk.injEq] at h
-    obtain ⟨h1, h2⟩ := h
-    subst h1; subst h2
-    simp
-
-@[simp] theorem enqueue_kept (cfg : Cfg) (s : St) (id : Nat) : (enqueue cfg s id).kept = s.kept := by
-  unfold enqueue; split <;> rfl
-@[simp] theorem enqueue_keptCap (cfg : Cfg) (s : St) (id : Nat) : (enqueue cfg s id).keptCap = s.keptCap := by
-  unfold enqueue; split <;> rfl
-@[simp] theorem enqueue_cur (cfg : Cfg) (s : St) (id : Nat) : (enqueue cfg s id).cur = s.cur := by
-  unfold enqueue; split <;> rfl
-@[simp] theorem enqueue_fut (cfg : Cfg) (s : St) (id : Nat) : (enqueue cfg s id).fut = s.fut := by
-  unfold enqueue; split <;> rfl
-@[simp] theorem enqueue_recent (cfg : Cfg) (s : St) (id : Nat) : (enqueue cfg s id).recent = s.recent := by
-  unfold enqueue; split <;> rfl
-@[simp] theorem enqueue_reasons (cfg : Cfg) (s : St) (id : Nat) : (enqueue cfg s id).reasons = s.reasons := by
-  unfold enqueue; split <;> rfl
-
-/-! ## Kept side: the LRU refines the recency specification -/
-
-/-- what an operation and its answer mean for the kept side -/
-inductive KEv where
-  | touch (x : Nat)
-  | resize (k : Nat)
-  | nop
-
-def kevOf : Op × Out → KEv
-  | (.resize k _, .resizeOk) => .resize k
-  | (.recKept id .., _) => .touch id
-  | (.checkSpan id .., .ans (.kept ..)) => .touch id
-  | (.checkTrace id _, .ans (.kept ..)) => .touch id
-  | _ => .nop
-
-/-- The specification of the kept side: a recency list of ids and a capacity.  A touch moves the
-id to the front and keeps the first `cap`; a resize keeps the first `k`. -/
-def specK (st : List Nat × Nat) : KEv → List Nat × Nat
-  | .touch x => (specTouch st.2 st.1 x, st.2)
-  | .resize k => (st.1.take k, k)
-  | .nop => st
-
-def keptIds (s : St) : List Nat := s.kept.map (·.id)
-
-theorem touch_present {cap : Nat} {R : List Nat} {x : Nat} (hx : x ∈ R) (hlen : R.length ≤ cap) :
-    specTouch cap R x = x :: R.filter (fun y => y != x) := by
-  unfold specTouch
-  apply List.take_of_length_le
-  have := length_filter_ne_lt hx
-  simp only [List.length_cons]
-  omega
-
-theorem kept_step (cfg : Cfg) (s : St) (o : Op) (hlen : (keptIds s).length ≤ s.keptCap) :
-    (keptIds (step cfg s o).1, (step cfg s o).1.keptCap)
-        = specK (keptIds s, s.keptCap) (kevOf (o, (step cfg s o).2))
-      ∧ (keptIds (step cfg s o).1).length ≤ (step cfg s o).1.keptCap := by
-  cases o with
-  | recKept id rate reason ev se sl sp =>
-    simp only [step, kevOf, specK, keptIds, lruAdd, specTouch, List.map_take, List.map_cons, ids_lruDel]
-    exact ⟨by first | rfl | trivial, by simp [List.length_take]; omega⟩
-  | recDrop id =>
-    simp only [step, kevOf, specK, keptIds, enqueue_kept, enqueue_keptCap, recentSet]
-    exact ⟨by first | rfl | trivial, hlen⟩
-  | checkSpan id kind fp =>
-    simp only [step]
-    split
-    · exact ⟨rfl, hlen⟩
-    · split
-      · exact ⟨rfl, hlen⟩
-      · split
-        · rename_i e he
-          obtain ⟨hid, hmem⟩ := lruFind_some he
-          have hx : id ∈ keptIds s := List.mem_map.mpr ⟨e, hmem, hid⟩
-          simp only [kevOf, ansOf, specK, keptIds, List.map_cons, ids_lruDel, count_id, hid]
-          have ht := touch_present hx hlen
-          simp only [keptIds] at ht
-          rw [ht]
-          refine ⟨rfl, ?_⟩
-          have := length_filter_ne_lt hx
-          simp only [keptIds] at this hlen
-          simp only [List.length_cons]; omega
-        · exact ⟨rfl, hlen⟩
-  | checkTrace id fp =>
-    simp only [step]
-    split
-    · exact ⟨rfl, hlen⟩
-    · split
-      · rename_i e he
-        obtain ⟨hid, hmem⟩ := lruFind_some he
-        have hx : id ∈ keptIds s := List.mem_map.mpr ⟨e, hmem, hid⟩
-        simp only [kevOf, ansOf, specK, keptIds, List.map_cons, ids_lruDel, hid]
-        have ht := touch_present hx hlen
-        simp only [keptIds] at ht
-        rw [ht]
-        refine ⟨rfl, ?_⟩
-        have := length_filter_ne_lt hx
-        simp only [keptIds] at this hlen
-        simp only [List.length_cons]; omega
-      · exact ⟨rfl, hlen⟩
-  | drain a =>
-    simp only [step]
-    split
-    · rename_i s' h
-      have := drainCore_eq h
-      subst this
-      exact ⟨rfl, hlen⟩
-    · exact ⟨rfl, hlen⟩
-  | maintain a =>
-    simp only [step]
-    split
-    · exact ⟨rfl, hlen⟩
-    · rename_i s1 h
-      have h1 := drainCore_eq h
-      split
-      · exact ⟨rfl, hlen⟩
-      · rename_i s2 rot h2
-        obtain ⟨hk, hc, _⟩ := maintainCore_frame h2
-        simp only [kevOf, specK, keptIds, hk, hc]
-        subst h1
-        exact ⟨rfl, hlen⟩
-  | resize k d =>
-    simp only [step]
-    split
-    · exact ⟨rfl, hlen⟩
-    · simp only [kevOf, specK, keptIds, List.map_take]
-      exact ⟨by first | rfl | trivial, by simp [List.length_take]; omega⟩
-  | adv d => exact ⟨rfl, hlen⟩
-
-theorem runFrom_cons (cfg : Cfg) (s : St) (o : Op) (t : List Op) :
-    runFrom cfg s (o :: t) = runFrom cfg (step cfg s o).1 t := rfl
-
-theorem runFrom_append (cfg : Cfg) (s : St) (a b : List Op) :
-    runFrom cfg s (a ++ b) = runFrom cfg (runFrom cfg s a) b := by
-  simp [runFrom, List.foldl_append]
-
-theorem run_snoc (cfg : Cfg) (kc dc : Nat) (ops : List Op) (o : Op) :
-    run cfg kc dc (ops ++ [o]) = (step cfg (run cfg kc dc ops) o).1 := by
-  simp [run, runFrom, List.foldl_append]
-
-/-- the kept-side events of a run -/
-def kevs (cfg : Cfg) (s : St) (ops : List Op) : List KEv := (transcript cfg s ops).map kevOf
-
-theorem lru_refines_spec_from (cfg : Cfg) : ∀ (ops : List Op) (s : St), (keptIds s).length ≤ s.keptCap →
-    (keptIds (runFrom cfg s ops), (runFrom cfg s ops).keptCap)
-        = (kevs cfg s ops).foldl specK (keptIds s, s.keptCap)
-      ∧ (keptIds (runFrom cfg s ops)).length ≤ (runFrom cfg s ops).keptCap := by
-  intro ops
-  induction ops with
-  | nil => intro s h; exact ⟨rfl, h⟩
-  | cons o t ih =>
-    intro s h
-    obtain ⟨h1, h2⟩ := kept_step cfg s o h
-    rw [runFrom_cons]
-    obtain ⟨h3, h4⟩ := ih _ h2
-    refine ⟨?_, h4⟩
-    rw [h3, h1]
-    simp [kevs, transcript]
+/-! ## Kept side -/
 
 /-- **lru_refines_spec** — after any history (resizes included) the kept ids and capacity are
 exactly what the recency specification computes from the observable transcript: every kept record
@@ -219,271 +45,35 @@ successful resize to `k` keeps the first `k`. -/
 theorem lru_refines_spec (cfg : Cfg) (kc dc : Nat) (ops : List Op) :
     (keptIds (run cfg kc dc ops), (run cfg kc dc ops).keptCap)
       = (kevs cfg (init cfg kc dc) ops).foldl specK ([], kc) :=
-  (lru_refines_spec_from cfg ops (init cfg kc dc) (by simp [keptIds, init])).1
-
-/-- the kept list never exceeds the per-worker capacity -/
-theorem kept_within_capacity (cfg : Cfg) (kc dc : Nat) (ops : List Op) :
-    (run cfg kc dc ops).kept.length ≤ (run cfg kc dc ops).keptCap := by
-  have := (lru_refines_spec_from cfg ops (init cfg kc dc) (by simp [keptIds, init])).2
-  simpa [keptIds, run] using this
-
-def isResize : Op → Bool
-  | .resize .. => true
-  | _ => false
-
-theorem kevOf_of_not_resize (o : Op) (out : Out) (h : isResize o = false) :
-    kevOf (o, out) = (match touchOf (o, out) with | some x => KEv.touch x | none => KEv.nop) := by
-  cases o <;> first
-    | (simp [isResize] at h; done)
-    | (cases out <;> first
-        | rfl
-        | (rename_i a; cases a <;> rfl))
-
-theorem fold_no_resize (cfg : Cfg) (cap : Nat) : ∀ (ops : List Op) (s : St) (R : List Nat),
-    (∀ o ∈ ops, isResize o = false) →
-    (kevs cfg s ops).foldl specK (R, cap)
-      = (((transcript cfg s ops).filterMap touchOf).foldl (specTouch cap) R, cap) := by
-  intro ops
-  induction ops with
-  | nil => intro s R _; rfl
-  | cons o t ih =>
-    intro s R h
-    have ho := h o (List.mem_cons_self)
-    have ht : ∀ o' ∈ t, isResize o' = false := fun o' ho' => h o' (List.mem_cons_of_mem _ ho')
-    simp only [kevs, transcript, List.map_cons, List.foldl_cons, List.filterMap_cons]
-    rw [kevOf_of_not_resize o _ ho]
-    cases hto : touchOf (o, (step cfg s o).2) with
-    | none => simpa [specK, kevs] using ih (step cfg s o).1 R ht
-    | some x => simpa [specK, kevs] using ih (step cfg s o).1 (specTouch cap R x) ht
+  Refinery.Lemmas.SentCache.lru_refines_spec cfg kc dc ops
 
 /-- **lru_refines_recency** — after any history without resize, the kept ids are exactly the
 first `cap` elements of the history's touch sequence (kept records and consults answered "kept"),
 most recent first, de-duplicated. -/
 theorem lru_refines_recency (cfg : Cfg) (kc dc : Nat) (ops : List Op)
     (h : ∀ o ∈ ops, isResize o = false) :
-    keptIds (run cfg kc dc ops) = (dedup (touches (transcript cfg (init cfg kc dc) ops))).take kc := by
-  have h1 := lru_refines_spec cfg kc dc ops
-  rw [fold_no_resize cfg kc ops _ [] h, fold_specTouch] at h1
-  exact (Prod.mk.inj h1).1
-
-def kevTouch : KEv → Option Nat
-  | .touch x => some x
-  | _ => none
-
-theorem touchOf_eq_kevTouch (p : Op × Out) : touchOf p = kevTouch (kevOf p) := by
-  obtain ⟨o, out⟩ := p
-  cases o <;> cases out <;> first
-    | rfl
-    | (rename_i a; cases a <;> rfl)
-
-theorem prefix_fold (evs : List KEv) : ∀ (R T : List Nat) (c : Nat), R <+: dedup T.reverse →
-    (evs.foldl specK (R, c)).1 <+: dedup ((T ++ evs.filterMap kevTouch).reverse) := by
-  induction evs with
-  | nil => intro R T c h; simpa using h
-  | cons e t ih =>
-    intro R T c h
-    cases e with
-    | touch x =>
-      have hx : specTouch c R x <+: dedup ((T ++ [x]).reverse) := by
-        simp only [List.reverse_append, List.reverse_cons, List.reverse_nil, List.nil_append,
-          List.singleton_append, dedup, specTouch]
-        exact (List.take_prefix _ _).trans ((List.prefix_cons_inj x).mpr (h.filter _))
-      have := ih (specTouch c R x) (T ++ [x]) c hx
-      simpa [specK, kevTouch, List.filterMap_cons] using this
-    | resize k =>
-      have := ih (R.take k) T k ((List.take_prefix _ _).trans h)
-      simpa [specK, kevTouch, List.filterMap_cons] using this
-    | nop =>
-      have := ih R T c h
-      simpa [specK, kevTouch, List.filterMap_cons] using this
+    keptIds (run cfg kc dc ops) = (dedup (touches (transcript cfg (init cfg kc dc) ops))).take kc :=
+  Refinery.Lemmas.SentCache.lru_refines_recency cfg kc dc ops h
 
 /-- **kept_prefix_of_recency** — after any history, resizes included, the kept ids are a prefix of
 the de-duplicated touch sequence read most recent first: whatever is retained is the newest. -/
 theorem kept_prefix_of_recency (cfg : Cfg) (kc dc : Nat) (ops : List Op) :
-    keptIds (run cfg kc dc ops) <+: dedup (touches (transcript cfg (init cfg kc dc) ops)) := by
-  have h1 := lru_refines_spec cfg kc dc ops
-  have h2 := prefix_fold (kevs cfg (init cfg kc dc) ops) [] [] kc (by simp [dedup])
-  rw [← h1] at h2
-  simp only [kevs, List.nil_append, List.filterMap_map] at h2
-  have : (fun p => kevTouch (kevOf p)) = touchOf := by
-    funext p; exact (touchOf_eq_kevTouch p).symm
-  simpa [touches, Function.comp_def, this] using h2
+    keptIds (run cfg kc dc ops) <+: dedup (touches (transcript cfg (init cfg kc dc) ops)) :=
+  Refinery.Lemmas.SentCache.kept_prefix_of_recency cfg kc dc ops
 
 /-- **resize_keeps_newest** — a resize to a positive per-worker size `k` leaves exactly the first
 `min(len, k)` entries of the old recency order, in the same order (entries, counters and all). -/
 theorem resize_keeps_newest (cfg : Cfg) (s : St) (k d : Nat) (hk : k ≠ 0) :
     (step cfg s (.resize k d)).1.kept = s.kept.take k ∧ (step cfg s (.resize k d)).1.keptCap = k ∧
-    (step cfg s (.resize k d)).2 = .resizeOk := by
-  simp [step, hk]
-
-/-- the same at the level of histories -/
-theorem resize_keeps_newest_run (cfg : Cfg) (kc dc : Nat) (ops : List Op) (k d : Nat) (hk : k ≠ 0) :
-    keptIds (run cfg kc dc (ops ++ [.resize k d])) = (keptIds (run cfg kc dc ops)).take k := by
-  rw [run_snoc]
-  simp [keptIds, (resize_keeps_newest cfg (run cfg kc dc ops) k d hk).1, List.map_take]
-
-/-- a resize to size 0 is refused and changes nothing -/
-theorem resize_zero_refused (cfg : Cfg) (s : St) (d : Nat) :
-    step cfg s (.resize 0 d) = (s, .resizeErr) := by
-  simp [step]
-
-/-! ## Reason interning -/
-
-/-- no two reasons share a hash (a 64-bit wyhash collision is the only way to violate it) -/
-def HashInj (hash : Nat → Nat) : Prop := ∀ a b, hash a = hash b → a = b
-
-/-- table invariant: every key points at a stored reason with that hash -/
-def RInv (hash : Nat → Nat) (t : Reasons) : Prop :=
-  ∀ h idx, AList.get t.keys h = some idx → idx ≠ 0 ∧ ∃ r, t.data[idx - 1]? = some r ∧ hash r = h
-
-theorem reasonGet_stable (hash : Nat → Nat) (t : Reasons) (r idx why : Nat)
-    (h : reasonGet t idx = some why) : reasonGet (reasonSet hash t r).1 idx = some why := by
-  unfold reasonSet
-  split
-  · exact h
-  · unfold reasonGet at h ⊢
-    split at h
-    · simp at h
-    · rename_i h0
-      simp only [h0, if_false]
-      obtain ⟨hlt, _⟩ := List.getElem?_eq_some_iff.mp h
-      rw [List.getElem?_append_left hlt]; exact h
-
-theorem reasonSet_inv (hash : Nat → Nat) (t : Reasons) (r : Nat) (hinv : RInv hash t) :
-    RInv hash (reasonSet hash t r).1 := by
-  unfold reasonSet
-  split
-  · exact hinv
-  · intro h idx hg
-    simp only at hg ⊢
-    rw [AList.get_put] at hg
-    by_cases hh : hash r = h
-    · simp only [hh, if_true, Option.some.injEq] at hg
-      subst hg
-      refine ⟨by omega, r, ?_, hh⟩
-      simp
-    · simp only [hh, if_false] at hg
-      obtain ⟨h0, r', hr', hhr'⟩ := hinv h idx hg
-      refine ⟨h0, r', ?_, hhr'⟩
-      obtain ⟨hlt, _⟩ := List.getElem?_eq_some_iff.mp hr'
-      rw [List.getElem?_append_left hlt]; exact hr'
+    (step cfg s (.resize k d)).2 = .resizeOk :=
+  Refinery.Lemmas.SentCache.resize_keeps_newest cfg s k d hk
 
 /-- **reason_roundtrip** — the index `Set` returns for a reason reads back as that reason
-(no hash collision assumed), and stays so after any later `Set` (`reasonGet_stable`). -/
+(no hash collision assumed) … -/
 theorem reason_roundtrip (hash : Nat → Nat) (hinj : HashInj hash) (t : Reasons) (r : Nat)
     (hinv : RInv hash t) :
-    reasonGet (reasonSet hash t r).1 (reasonSet hash t r).2 = some r := by
-  unfold reasonSet
-  split
-  · rename_i idx hg
-    obtain ⟨h0, r', hr', hhr'⟩ := hinv _ _ hg
-    have : r' = r := hinj _ _ hhr'
-    subst this
-    simp [reasonGet, h0, hr']
-  · simp [reasonGet]
-
-/-! ## Kept entries carry the recorded rate and reason -/
-
-/-- rate and reason of the most recent kept record per id -/
-def updLast (L : Nat → Option (Nat × Nat)) : Op → (Nat → Option (Nat × Nat))
-  | .recKept id rate reason .. => fun i => if i = id then some (rate, reason) else L i
-  | _ => L
-
-def lastKept (ops : List Op) : Nat → Option (Nat × Nat) := ops.foldl updLast (fun _ => none)
-
-def KInv (hash : Nat → Nat) (s : St) (L : Nat → Option (Nat × Nat)) : Prop :=
-  RInv hash s.reasons ∧
-  ∀ e ∈ s.kept, ∃ r why, L e.id = some (r, why) ∧ e.rate = u32 r ∧ reasonGet s.reasons e.reason = some why
-
-theorem kinv_sub {hash : Nat → Nat} {s s' : St} {L : Nat → Option (Nat × Nat)} (h : KInv hash s L)
-    (hr : s'.reasons = s.reasons) (hk : ∀ e ∈ s'.kept, e ∈ s.kept) : KInv hash s' L := by
-  refine ⟨hr ▸ h.1, fun e he => ?_⟩
-  rw [hr]; exact h.2 e (hk e he)
-
-theorem mem_lruDel {l : List Entry} {id : Nat} {e : Entry} (h : e ∈ lruDel l id) : e ∈ l ∧ e.id ≠ id := by
-  unfold lruDel at h
-  simpa using h
-
-theorem kinv_step (cfg : Cfg) (hinj : HashInj cfg.hash) (s : St) (L : Nat → Option (Nat × Nat))
-    (h : KInv cfg.hash s L) (o : Op) : KInv cfg.hash (step cfg s o).1 (updLast L o) := by
-  cases o with
-  | recKept id rate reason ev se sl sp =>
-    simp only [step, updLast]
-    refine ⟨reasonSet_inv _ _ _ h.1, ?_⟩
-    intro e he
-    simp only [lruAdd] at he
-    rcases List.mem_cons.mp (List.mem_of_mem_take he) with he | he
-    · subst he
-      exact ⟨rate, reason, by simp, rfl, reason_roundtrip _ hinj _ _ h.1⟩
-    · obtain ⟨hm, hne⟩ := mem_lruDel he
-      obtain ⟨r, why, h1, h2, h3⟩ := h.2 e hm
-      exact ⟨r, why, by simp [hne, h1], h2, reasonGet_stable _ _ _ _ _ h3⟩
-  | recDrop id => exact kinv_sub h (by simp [step, recentSet]) (by simp [step, recentSet])
-  | checkSpan id kind fp =>
-    simp only [step, updLast]
-    split
-    · exact kinv_sub h rfl (fun e he => he)
-    · split
-      · exact kinv_sub h rfl (fun e he => he)
-      · split
-        · rename_i e0 he0
-          obtain ⟨hid, hmem⟩ := lruFind_some he0
-          refine ⟨h.1, fun e he => ?_⟩
-          rcases List.mem_cons.mp he with he | he
-          · subst he
-            obtain ⟨r, why, h1, h2, h3⟩ := h.2 e0 hmem
-            exact ⟨r, why, by simpa using h1, by simpa using h2, by simpa using h3⟩
-          · exact h.2 e (mem_lruDel he).1
-        · exact h
-  | checkTrace id fp =>
-    simp only [step, updLast]
-    split
-    · exact h
-    · split
-      · rename_i e0 he0
-        obtain ⟨hid, hmem⟩ := lruFind_some he0
-        refine ⟨h.1, fun e he => ?_⟩
-        rcases List.mem_cons.mp he with he | he
-        · subst he; exact h.2 e hmem
-        · exact h.2 e (mem_lruDel he).1
-      · exact h
-  | drain a =>
-    simp only [step, updLast]
-    split
-    · rename_i s' hd
-      have := drainCore_eq hd
-      subst this
-      exact kinv_sub h rfl (fun e he => he)
-    · exact h
-  | maintain a =>
-    simp only [step, updLast]
-    split
-    · exact h
-    · rename_i s1 hd
-      have h1 := drainCore_eq hd
-      split
-      · exact h
-      · rename_i s2 rot h2
-        obtain ⟨hk, _, _, hr, _⟩ := maintainCore_frame h2
-        subst h1
-        exact kinv_sub h (by simpa using hr) (by simpa using fun e he => hk ▸ he)
-  | resize k d =>
-    simp only [step, updLast]
-    split
-    · exact h
-    · exact kinv_sub h rfl (fun e he => List.mem_of_mem_take he)
-  | adv d => exact kinv_sub h rfl (fun e he => he)
-
-theorem kinv_runFrom (cfg : Cfg) (hinj : HashInj cfg.hash) : ∀ (ops : List Op) (s : St)
-    (L : Nat → Option (Nat × Nat)), KInv cfg.hash s L → KInv cfg.hash (runFrom cfg s ops) (ops.foldl updLast L) := by
-  intro ops
-  induction ops with
-  | nil => intro s L h; exact h
-  | cons o t ih => intro s L h; exact ih _ _ (kinv_step cfg hinj s L h o)
-
-theorem kinv_run (cfg : Cfg) (hinj : HashInj cfg.hash) (kc dc : Nat) (ops : List Op) :
-    KInv cfg.hash (run cfg kc dc ops) (lastKept ops) :=
-  kinv_runFrom cfg hinj ops _ _ ⟨by intro h idx hg; simp [init] at hg, by simp [init]⟩
+    reasonGet (reasonSet hash t r).1 (reasonSet hash t r).2 = some r :=
+  Refinery.Lemmas.SentCache.reason_roundtrip hash hinj t r hinv
 
 /-- **kept_answered** — after any history, a trace that is still in the kept list and is not in
 the dropped filter is answered "kept" by `CheckTrace`, with the rate (as `uint32`) and the reason
@@ -492,27 +82,8 @@ theorem kept_answered (cfg : Cfg) (hinj : HashInj cfg.hash) (kc dc : Nat) (ops :
     (e : Entry) (hfind : lruFind (run cfg kc dc ops).kept id = some e)
     (hnd : (run cfg kc dc ops).cur.ids.contains id = false) :
     ∃ rate why, lastKept ops id = some (rate, why) ∧
-      (step cfg (run cfg kc dc ops) (.checkTrace id false)).2 = .ans (.kept (u32 rate) why e.ev e.se e.sl e.sp) := by
-  obtain ⟨hid, hmem⟩ := lruFind_some hfind
-  obtain ⟨r, why, h1, h2, h3⟩ := (kinv_run cfg hinj kc dc ops).2 e hmem
-  refine ⟨r, why, hid ▸ h1, ?_⟩
-  have hnd' : id ∉ (run cfg kc dc ops).cur.ids := by simpa using hnd
-  simp [step, hnd', hfind, ansOf, h2, h3, reasonStr]
-
-/-- the same for `CheckSpan` when the id is not in the recent-drop set either: the answer carries
-the counters after counting this span -/
-theorem kept_answered_span (cfg : Cfg) (hinj : HashInj cfg.hash) (kc dc : Nat) (ops : List Op) (id kind : Nat)
-    (e : Entry) (hfind : lruFind (run cfg kc dc ops).kept id = some e)
-    (hnd : (run cfg kc dc ops).cur.ids.contains id = false)
-    (hnr : recentHas (run cfg kc dc ops) id = false) :
-    ∃ rate why, lastKept ops id = some (rate, why) ∧
-      (step cfg (run cfg kc dc ops) (.checkSpan id kind false)).2
-        = .ans (.kept (u32 rate) why (e.count kind).ev (e.count kind).se (e.count kind).sl (e.count kind).sp) := by
-  obtain ⟨hid, hmem⟩ := lruFind_some hfind
-  obtain ⟨r, why, h1, h2, h3⟩ := (kinv_run cfg hinj kc dc ops).2 e hmem
-  refine ⟨r, why, hid ▸ h1, ?_⟩
-  have hnd' : id ∉ (run cfg kc dc ops).cur.ids := by simpa using hnd
-  simp [step, hnd', hnr, hfind, ansOf, h2, h3, reasonStr]
+      (step cfg (run cfg kc dc ops) (.checkTrace id false)).2 = .ans (.kept (u32 rate) why e.ev e.se e.sl e.sp) :=
+  Refinery.Lemmas.SentCache.kept_answered cfg hinj kc dc ops id e hfind hnd
 
 /-- **kept_answered_recent** — the property's kept clause: after any resize-free history, every
 trace among the first `cap` distinct entries of the touch sequence (most recent first) that the
@@ -522,185 +93,34 @@ theorem kept_answered_recent (cfg : Cfg) (hinj : HashInj cfg.hash) (kc dc : Nat)
     (hrecent : id ∈ (dedup (touches (transcript cfg (init cfg kc dc) ops))).take kc)
     (hnd : (run cfg kc dc ops).cur.ids.contains id = false) :
     ∃ rate why ev se sl sp, lastKept ops id = some (rate, why) ∧
-      (step cfg (run cfg kc dc ops) (.checkTrace id false)).2 = .ans (.kept (u32 rate) why ev se sl sp) := by
-  rw [← lru_refines_recency cfg kc dc ops hnores] at hrecent
-  have hs := (lruFind_isSome_iff _ id).mpr hrecent
-  obtain ⟨e, he⟩ := Option.isSome_iff_exists.mp hs
-  obtain ⟨rate, why, h1, h2⟩ := kept_answered cfg hinj kc dc ops id e he hnd
-  exact ⟨rate, why, _, _, _, _, h1, h2⟩
+      (step cfg (run cfg kc dc ops) (.checkTrace id false)).2 = .ans (.kept (u32 rate) why ev se sl sp) :=
+  Refinery.Lemmas.SentCache.kept_answered_recent cfg hinj kc dc ops id hnores hrecent hnd
 
 /-! ## Dropped side -/
 
 /-- **dropped_wins** — in every state, an id the current dropped filter holds is answered
-"dropped" by `CheckTrace`, whatever the kept list says (the kept list is not even consulted). -/
-theorem dropped_wins_trace (cfg : Cfg) (s : St) (id : Nat) (fp : Bool) (h : id ∈ s.cur.ids) :
-    (step cfg s (.checkTrace id fp)).2 = .ans .dropped := by
-  simp [step, h]
-
-/-- **dropped_wins** for `CheckSpan`: the recent-drop set or the filter is enough. -/
-theorem dropped_wins_span (cfg : Cfg) (s : St) (id kind : Nat) (fp : Bool)
-    (h : id ∈ s.cur.ids ∨ recentHas s id = true) :
-    (step cfg s (.checkSpan id kind fp)).2 = .ans .dropped := by
-  rcases h with h | h
-  · by_cases hr : recentHas s id = true <;> simp [step, h, hr]
-  · simp [step, h]
-
-/-- a filter false positive is answered "dropped" too (the "barring false positives" clause) -/
-theorem false_positive_answers_dropped (cfg : Cfg) (s : St) (id : Nat) :
-    (step cfg s (.checkTrace id true)).2 = .ans .dropped := by
-  simp [step]
-
-theorem mem_insertAll {f : Filter} {q lost : List Nat} {fail id : Nat}
-    (h : id ∈ f.ids ∨ id ∈ q) (hl : lost.contains id = false) : id ∈ (f.insertAll q fail lost).ids := by
-  simp only [Filter.insertAll, List.mem_filter, List.mem_append, hl, Bool.not_false, and_true]
-  exact h
-
-/-- **record_enqueues** — a drop record enters the add queue unless the queue is full. -/
-theorem record_enqueues (cfg : Cfg) (s : St) (id : Nat) (h : s.queue.length < cfg.depth) :
-    (step cfg s (.recDrop id)).1.queue = s.queue ++ [id] := by
-  simp [step, enqueue, recentSet, h]
-
-/-- add-queue overflow: the record is dropped on the floor (the exception the property names) -/
-theorem overflow_loses_record (cfg : Cfg) (s : St) (id : Nat) (h : ¬ s.queue.length < cfg.depth) :
-    (step cfg s (.recDrop id)).1.queue = s.queue := by
-  simp [step, enqueue, recentSet, h]
+"dropped" by both lookups, and an id the recent-drop set holds by `CheckSpan`, whatever the kept
+list says (the kept list is not even consulted); a filter false positive (`fp`) has the same
+effect. -/
+theorem dropped_wins (cfg : Cfg) (s : St) (id kind : Nat) (fp : Bool) :
+    (id ∈ s.cur.ids → (step cfg s (.checkTrace id fp)).2 = .ans .dropped) ∧
+    (id ∈ s.cur.ids ∨ recentHas s id = true → (step cfg s (.checkSpan id kind fp)).2 = .ans .dropped) ∧
+    (step cfg s (.checkTrace id true)).2 = .ans .dropped :=
+  ⟨dropped_wins_trace cfg s id fp, dropped_wins_span cfg s id kind fp, false_positive_answers_dropped cfg s id⟩
 
 /-- **drain_settles** — a drain that takes the id from the queue puts it into the current filter
 (and into the future filter when there is one) unless a failed insert kicked it out. -/
 theorem drain_settles (cfg : Cfg) (s s' : St) (a : Adv) (id : Nat) (h : drainCore cfg s a = some s')
     (hq : id ∈ s.queue.take a.k) :
     (a.lostC.contains id = false → id ∈ s'.cur.ids) ∧
-    (∀ f, s.fut = some f → a.lostF.contains id = false → ∃ f', s'.fut = some f' ∧ id ∈ f'.ids) := by
-  have := drainCore_eq h
-  subst this
-  refine ⟨fun hl => mem_insertAll (Or.inr hq) hl, fun f hf hl => ?_⟩
-  exact ⟨f.insertAll (s.queue.take a.k) a.failF a.lostF, by simp [hf], mem_insertAll (Or.inr hq) hl⟩
-
-/-- the operation loses `id` from the current filter through a failed insert -/
-def losesCur (id : Nat) : Op → Bool
-  | .drain a => a.lostC.contains id
-  | .maintain a => a.lostC.contains id
-  | _ => false
-
-/-- the operation, executed in `s`, rotates the filters -/
-def rotates (cfg : Cfg) (s : St) : Op → Bool
-  | .maintain a =>
-    match drainCore cfg s a with
-    | some s1 => match maintainCore cfg s1 with
-      | some (_, rot) => rot
-      | none => false
-    | none => false
-  | _ => false
-
-/-- no operation of the sequence, executed from `s`, rotates the filters -/
-def NoRotation (cfg : Cfg) : St → List Op → Prop
-  | _, [] => True
-  | s, o :: t => rotates cfg s o = false ∧ NoRotation cfg (step cfg s o).1 t
+    (∀ f, s.fut = some f → a.lostF.contains id = false → ∃ f', s'.fut = some f' ∧ id ∈ f'.ids) :=
+  Refinery.Lemmas.SentCache.drain_settles cfg s s' a id h hq
 
 /-- **rotation_needs_full** — `Maintain` rotates only when, after its own drain, the current
 filter's load exceeds `rotPm`/1000 (0.99 in the code: see `gen_constants`). -/
 theorem rotation_needs_full (cfg : Cfg) (s : St) (a : Adv) (h : rotates cfg s (.maintain a) = true) :
-    ∃ s1, drainCore cfg s a = some s1 ∧ 1000 * s1.cur.count > cfg.rotPm * s1.cur.slots := by
-  simp only [rotates] at h
-  split at h
-  · rename_i s1 hd
-    split at h
-    · rename_i s2 rot hm
-      subst h
-      have := (maintainCore_frame hm).2.2.2.2.2.2.2 rfl
-      exact ⟨s1, hd, by simpa [over] using this⟩
-    · simp at h
-  · simp at h
-
-/-- the rotation flag of the maintenance report is `rotates` -/
-theorem rotates_observable (cfg : Cfg) (s : St) (a : Adv) (c : Nat × Nat) (f : Option (Nat × Nat))
-    (rot : Bool) (old : Nat × Nat) (q r : Nat)
-    (h : (step cfg s (.maintain a)).2 = .maint c f rot old q r) : rotates cfg s (.maintain a) = rot := by
-  simp only [step, rotates] at h ⊢
-  split at h
-  · simp at h
-  · rename_i s1 hd
-    simp only [hd]
-    split at h
-    · simp at h
-    · rename_i s2 rot' hm
-      simp only [hm]
-      simp only [Out.maint.injEq] at h
-      exact h.2.2.1
-
-/-- with the future threshold not above the rotation threshold, `current = nil` cannot happen -/
-theorem no_nil_current (cfg : Cfg) (s : St) (h : cfg.futPm ≤ cfg.rotPm) : maintainCore cfg s ≠ none := by
-  unfold maintainCore
-  simp only
-  split
-  · rename_i hov
-    cases hf : s.fut with
-    | some f => simp
-    | none =>
-      have : over cfg.futPm s.cur.count s.cur.slots = true := by
-        simp only [over, decide_eq_true_eq] at hov ⊢
-        have := Nat.mul_le_mul_right s.cur.slots h
-        omega
-      simp [this]
-  · simp
-
-theorem cur_mem_step (cfg : Cfg) (s : St) (o : Op) (id : Nat) (hin : id ∈ s.cur.ids)
-    (hl : losesCur id o = false) (hr : rotates cfg s o = false) : id ∈ (step cfg s o).1.cur.ids := by
-  cases o with
-  | recKept i rate reason ev se sl sp => simpa [step] using hin
-  | recDrop i => simpa [step, recentSet] using hin
-  | checkSpan i kind fp =>
-    simp only [step]
-    split
-    · simpa [recentSet] using hin
-    · split
-      · simpa [recentSet] using hin
-      · split <;> simpa using hin
-  | checkTrace i fp =>
-    simp only [step]
-    split
-    · exact hin
-    · split <;> simpa using hin
-  | drain a =>
-    simp only [step]
-    split
-    · rename_i s' hd
-      have := drainCore_eq hd
-      subst this
-      exact mem_insertAll (Or.inl hin) hl
-    · exact hin
-  | maintain a =>
-    simp only [step]
-    simp only [rotates] at hr
-    split
-    · exact hin
-    · rename_i s1 hd
-      simp only [hd] at hr
-      split
-      · exact hin
-      · rename_i s2 rot hm
-        simp only [hm] at hr
-        subst hr
-        have hc := (maintainCore_frame hm).2.2.2.2.2.2.1 rfl
-        have := drainCore_eq hd
-        subst this
-        simp only [hc]
-        exact mem_insertAll (Or.inl hin) hl
-  | resize k d =>
-    simp only [step]
-    split <;> exact hin
-  | adv d => exact hin
-
-theorem cur_mem_run (cfg : Cfg) (id : Nat) : ∀ (suf : List Op) (s : St), id ∈ s.cur.ids →
-    (∀ o ∈ suf, losesCur id o = false) → NoRotation cfg s suf → id ∈ (runFrom cfg s suf).cur.ids := by
-  intro suf
-  induction suf with
-  | nil => intro s h _ _; exact h
-  | cons o t ih =>
-    intro s h hl hr
-    rw [runFrom_cons]
-    exact ih _ (cur_mem_step cfg s o id h (hl o List.mem_cons_self) hr.1)
-      (fun o' ho' => hl o' (List.mem_cons_of_mem _ ho')) hr.2
+    ∃ s1, drainCore cfg s a = some s1 ∧ 1000 * s1.cur.count > cfg.rotPm * s1.cur.slots :=
+  Refinery.Lemmas.SentCache.rotation_needs_full cfg s a h
 
 /-- **dropped_until_rotation** — from any state in which the current filter holds `id`, through
 any further operations none of which kicks `id` out by a failed insert and none of which rotates
@@ -708,9 +128,8 @@ the filters, both lookups still answer "dropped" — whatever was or is recorded
 theorem dropped_until_rotation (cfg : Cfg) (s : St) (suf : List Op) (id : Nat) (hin : id ∈ s.cur.ids)
     (hl : ∀ o ∈ suf, losesCur id o = false) (hr : NoRotation cfg s suf) (fp : Bool) (kind : Nat) :
     (step cfg (runFrom cfg s suf) (.checkTrace id fp)).2 = .ans .dropped ∧
-    (step cfg (runFrom cfg s suf) (.checkSpan id kind fp)).2 = .ans .dropped := by
-  have h := cur_mem_run cfg id suf s hin hl hr
-  exact ⟨dropped_wins_trace cfg _ id fp h, dropped_wins_span cfg _ id kind fp (Or.inl h)⟩
+    (step cfg (runFrom cfg s suf) (.checkSpan id kind fp)).2 = .ans .dropped :=
+  Refinery.Lemmas.SentCache.dropped_until_rotation cfg s suf id hin hl hr fp kind
 
 /-- **dropped_until_rotation** at the level of histories: after any history whose add queue is
 not full, a drop record followed by a drain of the whole queue in which the id is not kicked out
@@ -724,45 +143,107 @@ theorem dropped_until_rotation_run (cfg : Cfg) (kc dc : Nat) (pre suf : List Op)
     (hl : ∀ o ∈ suf, losesCur id o = false)
     (hr : NoRotation cfg (run cfg kc dc (pre ++ [.recDrop id, .drain a])) suf) (fp : Bool) (kind : Nat) :
     (step cfg (run cfg kc dc (pre ++ [.recDrop id, .drain a] ++ suf)) (.checkTrace id fp)).2 = .ans .dropped ∧
-    (step cfg (run cfg kc dc (pre ++ [.recDrop id, .drain a] ++ suf)) (.checkSpan id kind fp)).2 = .ans .dropped := by
-  obtain ⟨s', hs'⟩ := Option.isSome_iff_exists.mp hvalid
-  have hq : (run cfg kc dc (pre ++ [.recDrop id])).queue = (run cfg kc dc pre).queue ++ [id] := by
-    rw [run_snoc]; exact record_enqueues cfg _ id hroom
-  have hmem : id ∈ (run cfg kc dc (pre ++ [.recDrop id])).queue.take a.k := by
-    rw [hq, hk, List.take_of_length_le (by simp)]; simp
-  have hin : id ∈ (run cfg kc dc (pre ++ [.recDrop id, .drain a])).cur.ids := by
-    have : pre ++ [Op.recDrop id, Op.drain a] = (pre ++ [Op.recDrop id]) ++ [Op.drain a] := by simp
-    rw [this, run_snoc]
-    simp only [step, hs']
-    exact (drain_settles cfg _ s' a id hs' hmem).1 hkeep
-  have := dropped_until_rotation cfg _ suf id hin hl hr fp kind
-  simp only [run, runFrom_append] at this ⊢
-  exact this
+    (step cfg (run cfg kc dc (pre ++ [.recDrop id, .drain a] ++ suf)) (.checkSpan id kind fp)).2 = .ans .dropped :=
+  Refinery.Lemmas.SentCache.dropped_until_rotation_run cfg kc dc pre suf id a hroom hk hvalid hkeep hl hr fp kind
 
 /-- **dropped_survives_rotation** — an id that is also in the future filter (it was drained after
 the future filter was started) is still answered "dropped" after the next rotation. -/
 theorem dropped_survives_rotation (cfg : Cfg) (s : St) (a : Adv) (f : Filter) (id : Nat)
     (hf : s.fut = some f) (hin : id ∈ f.ids) (hl : a.lostF.contains id = false)
-    (hrot : rotates cfg s (.maintain a) = true) : id ∈ (step cfg s (.maintain a)).1.cur.ids := by
-  simp only [rotates] at hrot
-  simp only [step]
-  split
-  · rename_i hd; simp [hd] at hrot
-  · rename_i s1 hd
-    simp only [hd] at hrot
-    split
-    · rename_i hm; simp [hm] at hrot
-    · rename_i s2 rot hm
-      simp only [hm] at hrot
-      subst hrot
-      have h1 := drainCore_eq hd
-      subst h1
-      unfold maintainCore at hm
-      simp only [hf, Option.map_some] at hm
-      split at hm
-      · simp only [Option.some.injEq, Prod.mk.injEq] at hm
-        rw [← hm.1]
-        exact mem_insertAll (Or.inl hin) hl
-      · simp at hm
+    (hrot : rotates cfg s (.maintain a) = true) : id ∈ (step cfg s (.maintain a)).1.cur.ids :=
+  Refinery.Lemmas.SentCache.dropped_survives_rotation cfg s a f id hf hin hl hrot
+
+/-- **recent_covers_gap** — after any history, a drop record is answered "dropped" by `CheckSpan`
+through whatever happens next (queue overflow, no drain at all, filter rotations, kept records of
+the same trace) as long as the clock has advanced by at most the recent-drop TTL since — the expiry
+instant included. -/
+theorem recent_covers_gap (cfg : Cfg) (kc dc : Nat) (pre suf : List Op) (id kind : Nat) (fp : Bool)
+    (hadv : (advTotal suf : Int) ≤ cfg.ttl) :
+    (step cfg (run cfg kc dc (pre ++ [.recDrop id] ++ suf)) (.checkSpan id kind fp)).2 = .ans .dropped :=
+  Refinery.Lemmas.SentCache.recent_covers_gap cfg kc dc pre suf id kind fp hadv
+
+/-! ## Where the code falls short of the statement: `CheckTrace` ignores the recent-drop set -/
+
+/-- The full-strength reading of "a trace recorded as dropped is answered dropped": right after
+the record (queue not full, no clock advance) *both* lookups answer "dropped". -/
+def FullStatement : Prop :=
+  ∀ (cfg : Cfg) (kc dc : Nat) (pre : List Op) (id kind : Nat),
+    (run cfg kc dc pre).queue.length < cfg.depth →
+    (step cfg (run cfg kc dc (pre ++ [.recDrop id])) (.checkSpan id kind false)).2 = .ans .dropped ∧
+    (step cfg (run cfg kc dc (pre ++ [.recDrop id])) (.checkTrace id false)).2 = .ans .dropped
+
+def cfg0 : Cfg :=
+  { slots := fun _ => 8, hash := fun r => r, depth := 1000, futPm := 500, rotPm := 990, minFull := 4,
+    ttl := 3000000000 }
+
+/-- Witness: `Record(1, dropped); CheckTrace(1)` on a fresh cache answers "not found": until the
+add queue is drained only `CheckSpan` knows about the drop. -/
+theorem full_statement_refuted : ¬ FullStatement := by
+  intro h
+  have := (h cfg0 2 8 [] 1 0 (by decide)).2
+  revert this
+  decide
+
+/-- …and with a kept record of the same trace it answers "kept": dropped does not win there. -/
+example :
+    (step cfg0 (run cfg0 2 8 [.recKept 1 10 3 0 0 0 1, .recDrop 1]) (.checkTrace 1 false)).2
+      = .ans (.kept 10 3 0 0 0 1) := by decide
+
+/-- **dropped_answered_partial** — what does hold right after the record: `CheckSpan` answers
+"dropped" at once (and for the TTL, `recent_covers_gap`); `CheckTrace` does from the first drain that
+takes the id (`dropped_until_rotation_run`). -/
+theorem dropped_answered_partial (cfg : Cfg) (kc dc : Nat) (pre : List Op) (id kind : Nat) (a : Adv)
+    (h0 : 0 ≤ cfg.ttl)
+    (hroom : (run cfg kc dc pre).queue.length < cfg.depth)
+    (hk : a.k = (run cfg kc dc pre).queue.length + 1)
+    (hvalid : (drainCore cfg (run cfg kc dc (pre ++ [.recDrop id])) a).isSome = true)
+    (hkeep : a.lostC.contains id = false) :
+    (step cfg (run cfg kc dc (pre ++ [.recDrop id])) (.checkSpan id kind false)).2 = .ans .dropped ∧
+    (step cfg (run cfg kc dc (pre ++ [.recDrop id, .drain a])) (.checkTrace id false)).2 = .ans .dropped := by
+  refine ⟨?_, ?_⟩
+  · have := recent_covers_gap cfg kc dc pre [] id kind false (by simpa [advTotal] using h0)
+    simpa using this
+  · have := (dropped_until_rotation_run cfg kc dc pre [] id a hroom hk hvalid hkeep (by simp) trivial false 0).1
+    simpa using this
+
+/-! ## The constants, as read from the compiled code -/
+
+/-- The thresholds `Maintain` uses (measured on the real code by the harness): the future filter
+starts above 50 % load, rotation needs more than 99 % — "filled to capacity" —, the future
+threshold is below the rotation threshold (so `current` is never nil), the recent-drop TTL is 3 s
+and the add queue holds 1000 ids. -/
+theorem gen_constants :
+    Refinery.Gen.Sentcache.futurePermille = 500 ∧ Refinery.Gen.Sentcache.rotatePermille ≥ 990 ∧
+    Refinery.Gen.Sentcache.rotatePermille < 1000 ∧
+    Refinery.Gen.Sentcache.futurePermille ≤ Refinery.Gen.Sentcache.rotatePermille ∧
+    Refinery.Gen.Sentcache.recentTTLns = 3000000000 ∧ Refinery.Gen.Sentcache.addQueueDepth = 1000 := by
+  decide
+
+/-! ## Non-vacuity: concrete histories evaluated by the kernel -/
+
+-- capacity 2: the third kept record evicts the least recently touched one; a consult refreshes
+example : keptIds (run cfg0 2 8 [.recKept 1 10 3 0 0 0 1, .recKept 2 5 4 0 0 0 1, .checkTrace 1 false,
+    .recKept 3 7 3 0 0 0 1]) = [3, 1] := by decide
+example : (step cfg0 (run cfg0 2 8 [.recKept 1 10 3 0 0 0 1, .recKept 2 5 4 0 0 0 1]) (.checkSpan 1 2 false)).2
+    = .ans (.kept 10 3 1 0 1 1) := by decide
+-- dropped wins over kept once drained; the recent-drop set covers CheckSpan before the drain
+example : (step cfg0 (run cfg0 2 8 [.recKept 1 10 3 0 0 0 1, .recDrop 1, .drain { k := 1 }]) (.checkTrace 1 false)).2
+    = .ans .dropped := by decide
+example : (step cfg0 (run cfg0 2 8 [.recKept 1 10 3 0 0 0 1, .recDrop 1, .adv 3000000000]) (.checkSpan 1 0 false)).2
+    = .ans .dropped := by decide
+example : (step cfg0 (run cfg0 2 8 [.recKept 1 10 3 0 0 0 1, .recDrop 1, .adv 3000000001]) (.checkSpan 1 0 false)).2
+    = .ans (.kept 10 3 1 0 0 2) := by decide
+-- 8 slots: the 8th insert fills the filter; the next maintenance rotates and the first id is forgotten
+example : rotates cfg0 (run cfg0 2 8 ((List.range 8).map .recDrop ++ [.drain { k := 8 }])) (.maintain {}) = true := by
+  decide
+example : rotates cfg0 (run cfg0 2 8 ((List.range 7).map .recDrop ++ [.drain { k := 7 }])) (.maintain {}) = false := by
+  decide
+example : (step cfg0 (run cfg0 2 8 ((List.range 5).map .recDrop ++ [.maintain { k := 5 }] ++
+    [.recDrop 5, .recDrop 6, .recDrop 7, .maintain { k := 3 }])) (.checkTrace 0 false)).2 = .ans .notFound := by decide
+example : (step cfg0 (run cfg0 2 8 ((List.range 5).map .recDrop ++ [.maintain { k := 5 }] ++
+    [.recDrop 5, .recDrop 6, .recDrop 7, .maintain { k := 3 }])) (.checkTrace 7 false)).2 = .ans .dropped := by decide
+-- resize keeps the newest
+example : keptIds (run cfg0 3 8 [.recKept 1 1 0 0 0 0 0, .recKept 2 1 0 0 0 0 0, .recKept 3 1 0 0 0 0 0,
+    .resize 2 8]) = [3, 2] := by decide
 
 end Refinery.Props.C31
